@@ -1365,10 +1365,12 @@ Lemma run_from_ok cf fuel h s : cf_fix cf = all_fixed -> Inv s -> Forall (fun it
 Proof.
   intros Hfix. revert s. induction h as [|[i tape] rest IHh]; intros s I Hh; simpl; [apply safe_ret; exact I|].
   inversion Hh; subst.
-  apply safe_bind. apply safe_get.
-  destruct (st_destroying s); [apply safe_ret; exact I|].
-  apply safe_bind. eapply safe_mono; [apply (step_ok cf fuel i tape s Hfix I); auto|].
-  intros [] s1 I1. apply IHh; auto.
+  assert (G : safe (step cf fuel i tape;; run_from cf fuel rest) s (fun _ s' => Inv s')).
+  { apply safe_bind. eapply safe_mono; [apply (step_ok cf fuel i tape s Hfix I); auto|].
+    intros [] s1 I1. apply IHh; auto. }
+  destruct i; try exact G.
+  apply safe_bind. eapply safe_mono; [apply (step_ok cf fuel IDestroy tape s Hfix I Logic.I)|].
+  intros [] s1 I1. apply safe_ret. exact I1.
 Qed.
 
 (* C01_no_ub, for histories that do not use getaddrinfo/gethostbyname *)
@@ -1377,16 +1379,17 @@ Theorem run_no_ub cf fuel h final :
   forall k, run cf fuel h final <> UB k.
 Proof.
   intros Hfix Hh k. unfold run.
-  assert (S : safe (run_from cf fuel h;;
-                    (let! s := get in (if st_destroying s then ret tt else step cf fuel IDestroy final);; emit EvEnd))
+  assert (S : safe (let! destroyed := run_from cf fuel h in
+                    (if destroyed then ret tt else step cf fuel IDestroy final);; emit EvEnd)
                    init_state (fun _ _ => True)).
   { apply safe_bind. eapply safe_mono; [apply (run_from_ok cf fuel h init_state Hfix init_inv Hh)|].
-    intros [] s1 I1. apply safe_bind. apply safe_get. apply safe_bind.
-    - destruct (st_destroying s1).
+    intros d s1 I1. apply safe_bind.
+    - destruct d.
       + apply safe_ret. apply safe_emit. exact Logic.I.
       + eapply safe_mono; [apply (step_ok cf fuel IDestroy final s1 Hfix I1 Logic.I)|].
         intros [] s2 I2. apply safe_emit. exact Logic.I. }
   unfold safe in S.
-  destruct ((run_from cf fuel h;; (let! s := get in (if st_destroying s then ret tt else step cf fuel IDestroy final);; emit EvEnd)) init_state)
+  destruct ((let! destroyed := run_from cf fuel h in
+             (if destroyed then ret tt else step cf fuel IDestroy final);; emit EvEnd) init_state)
     as [[a s']|e|k']; try discriminate. destruct S.
 Qed.
